@@ -83,8 +83,40 @@ class CmpProp(Prop):
                                   traits=traits, variants=variants, enum=is_enum, name=name)))
         return out
 
+    # key dialects: the same grammar with the key expression of one attribute kind replaced by the identity, written
+    # `$`, `( $ )` or `( ( $ ) )` - a key that "does nothing" must still take its place in the precedence
+    ID = lambda x: x
+    DIALECTS = {
+        'std': {},
+        'id-hash': {'hash': ('$', ID)},
+        'id-eq': {'eq': ('( ( $ ) )', ID), 'partial_eq': ('( $ )', ID)},
+        'id-ord': {'ord': ('$', ID), 'partial_ord': ('( $ )', ID)},
+    }
+
     def cases(self, tier, rng):
-        return self.build_cases(tier, rng)
+        out = self.build_cases(tier, rng)
+        for _, m in out:
+            m['dialect'] = 'std'
+        saved = G.KEY
+        n_extra = max(30, self.n(tier) // 8)
+        try:
+            for name, over in self.DIALECTS.items():
+                if name == 'std':
+                    continue
+                G.KEY = dict(saved, **over)
+                real_n = self.n
+                self.n = lambda tier: n_extra
+                try:
+                    extra = self.build_cases(tier, rng)
+                finally:
+                    self.n = real_n
+                for req, m in extra:
+                    m['dialect'] = name
+                    m['features'] = tuple(m['features']) + ('dialect:' + name,)
+                out.extend(extra)
+        finally:
+            G.KEY = saved
+        return out
 
     def view(self, r, parts):
         # the bodies of the comparison impls (headers belong to C03/C04)
@@ -121,7 +153,12 @@ class CmpProp(Prop):
                                      input=r.input_text(), expected='compiles (the documentation allows this combination)',
                                      observed=[d['message'] for d in mo.diags if d['level'] == 'error'][:3]))
                 continue
-            want = [x for x in G.expected_lines(m['variants'], m['traits'], m['values']) if x[0] in self.observe]
+            saved_key = G.KEY
+            G.KEY = dict(saved_key, **self.DIALECTS.get(m.get('dialect', 'std'), {}))
+            try:
+                want = [x for x in G.expected_lines(m['variants'], m['traits'], m['values']) if x[0] in self.observe]
+            finally:
+                G.KEY = saved_key
             got = [x for x in obs.get(str(mo.cid), []) if x[0] in self.observe]
             pairs += sum(len(x[1]) for x in want)
             if want != got:
